@@ -262,7 +262,11 @@ class PoolScenario(Scenario):
 
 # ----------------------------------------------------------------------------- worker gateway scenarios (C14, C11)
 
-BODY_KINDS = {"return": None, "raise": "TaskError", "sysexit": "SystemExit", "kbd": "KeyboardInterrupt", "block": None, "swallow": None}
+BODY_KINDS = {"return": None, "raise": "TaskError", "sysexit": "SystemExit", "kbd": "KeyboardInterrupt", "block": None, "swallow": None,
+              "sleep": "KeyboardInterrupt", "recv": "EOFError"}
+# block: waits for G.release_<body>;  swallow: never ends (ignores interrupts / busy loop);
+# sleep: interruptible blocking call - ends with KeyboardInterrupt when SIGINT reaches the thread running it (main thread only);
+# recv: blocked in channel.receive() - ends with EOFError once the connection is gone (G.eof)
 CLOSE_OK, CLOSE_DEADLOCK, CLOSE_ERROR, CLOSE_INTERRUPT = 1, 2, 3, 4
 
 
@@ -290,6 +294,7 @@ class GatewayScenario(Scenario):
         self.static = {}
         self.bad, self.good_flags, self.observed = [], [], []
         self.nworkers = nworkers
+        self.comp.interruptible_thread = "main"
         for k in range(nworkers):
             self.thread(f"worker{k}", "def p(pool, reply):\n    pool._perform_spawn(reply)\n", dynamic=True, method="_perform_spawn")
 
@@ -353,7 +358,8 @@ class GatewayScenario(Scenario):
 
         def s_kill(comp, ctx, node, cur):
             n = comp.m.new_node()
-            comp.emit(ctx, cur, n, updates=[(V(comp.m.var("G.sigint", INT0)), C(pyint(1)))], visible=True, info="os.kill(getpid(), SIGINT) (stub)", node=node, sync="await")
+            comp.emit(ctx, cur, n, updates=[(V(comp.m.var("G.sigint", INT0)), C(pyint(1))), (V(comp.m.var("G.sigint_pending", INT0)), C(pyint(1)))],
+                      visible=True, info="os.kill(getpid(), SIGINT) (stub: KeyboardInterrupt pending for the main thread)", node=node, sync="await")
             return n, C(NONE)
 
         def s_exit(comp, ctx, node, cur):
@@ -389,13 +395,17 @@ class GatewayScenario(Scenario):
                                               (V(comp.m.var(f"G.ord_{name}", INT0)), V(seq)), (V(seq), ("padd", V(seq), C(pyint(1)))),
                                               (V(act), ("padd", V(act), C(pyint(1)))), (V(ovl), ("ite", ("ne", V(act), C(INT0)), C(pyint(1)), V(ovl)))],
                       visible=True, info=f"body {name} starts", node=node)
-            if kind in ("block", "swallow"):
-                gate = comp.m.var(f"G.release_{name}", INT0)
+            if kind in ("block", "swallow", "sleep", "recv"):
+                pend = comp.m.var("G.sigint_pending", INT0)
+                if kind == "sleep":
+                    gate, ups = pend, [(V(pend), C(INT0))]
+                    can = ctx.thread == comp.interruptible_thread   # SIGINT only ever reaches the main thread
+                elif kind == "recv":
+                    gate, ups, can = comp.m.var("G.eof", INT0), [], True
+                else:
+                    gate, ups, can = comp.m.var(f"G.release_{name}", INT0), [], kind == "block"
                 n2 = comp.m.new_node()
-                comp.emit(ctx, n1, n2, guard=("ne", V(gate), C(INT0)), visible=True, info=f"body {name} released", node=node, sync="await")
-                if kind == "swallow":
-                    # a body that catches KeyboardInterrupt and keeps going: the interrupt does not end it
-                    pass
+                comp.emit(ctx, n1, n2, guard=("ne", V(gate), C(INT0)) if can else C(0), updates=ups, visible=True, info=f"body {name} unblocked ({kind})", node=node, sync="await")
                 n1 = n2
             n3 = comp.m.new_node()
             comp.emit(ctx, n1, n3, updates=[(V(fin), C(pyint(1))), (V(act), ("psub", V(act), C(pyint(1))))], visible=True, info=f"body {name} ends", node=node)
@@ -504,12 +514,22 @@ class GatewayScenario(Scenario):
                     if G.active != 0:
                         G.overlap = 1
                     G.active = G.active + 1
-                    if kind in ("block", "swallow"):
+                    if kind in ("block", "swallow", "sleep", "recv"):
                         import time as _t
 
+                        on_main = sched.me() == "main"
                         t0 = _t.time()
-                        while not getattr(G, f"release_{name}") and _t.time() - t0 < 20:
+                        while _t.time() - t0 < 20:
+                            if kind == "block" and getattr(G, f"release_{name}"):
+                                break
+                            if kind == "sleep" and on_main and G.sigint_pending:
+                                G.sigint_pending = 0
+                                break
+                            if kind == "recv" and G.eof:
+                                break
                             _t.sleep(0.005)
+                        else:
+                            _th.Event().wait()      # never ends
                         sched.sync("await")
                     setattr(G, f"fin_{name}", 1)
                     G.active = G.active - 1
@@ -520,6 +540,8 @@ class GatewayScenario(Scenario):
                         raise SystemExit(3)
                     if exc == "KeyboardInterrupt":
                         raise KeyboardInterrupt()
+                    if exc == "EOFError":
+                        raise EOFError()
 
                 return body
 
@@ -547,6 +569,7 @@ class GatewayScenario(Scenario):
 
                 def kill(self, pid, sig):
                     G.sigint = 1
+                    G.sigint_pending = 1
                     sched.sync("await")
 
                 def _exit(self, code):
